@@ -39,6 +39,10 @@ import (
 // VerifDir is the root of the verification tree.
 var VerifDir = envOr("VERIF_DIR", "/verif")
 
+// OutDir is where evidence and replay files are written (VERIF_OUT; default: the verification tree).
+// Mutation trials against another source tree set it so that /verif/evidence keeps describing /repo.
+var OutDir = envOr("VERIF_OUT", VerifDir)
+
 // RepoDir is the goProbe source tree the harness is built against.
 var RepoDir = envOr("VERIF_REPO", "/repo")
 
@@ -905,7 +909,7 @@ func conclude(p *Parent, wall time.Duration) int {
 	}
 	sort.Strings(sigs)
 	var newViol, knownHit []string
-	os.MkdirAll(filepath.Join(VerifDir, "replays"), 0o755)
+	os.MkdirAll(filepath.Join(OutDir, "replays"), 0o755)
 	for _, sig := range sigs {
 		vs := bySig[sig]
 		if k := isKnown(sig); k != nil {
@@ -914,7 +918,7 @@ func conclude(p *Parent, wall time.Duration) int {
 			continue
 		}
 		v := vs[0]
-		rp := filepath.Join(VerifDir, "replays", fmt.Sprintf("%s-%s-s%d-c%d-%s.json", ck.ID, p.Tier, p.Seed, v.Case, shortHash(sig)))
+		rp := filepath.Join(OutDir, "replays", fmt.Sprintf("%s-%s-s%d-c%d-%s.json", ck.ID, p.Tier, p.Seed, v.Case, shortHash(sig)))
 		rf := replayFile{Property: ck.ID, Tier: p.Tier, Seed: p.Seed, Case: v.Case, Variant: v.Variant, Sig: sig, Detail: v.Detail,
 			Cmd: fmt.Sprintf("cd %s && ./run.sh replay %s", VerifDir, rp)}
 		b, _ := json.MarshalIndent(rf, "", " ")
@@ -1008,10 +1012,10 @@ func writeEvidence(p *Parent, wall time.Duration, newViol, knownHit, inconcl []s
 		ev["assumptions"] = []string{}
 	}
 	b, _ := json.MarshalIndent(ev, "", " ")
-	os.MkdirAll(filepath.Join(VerifDir, "evidence"), 0o755)
-	tmp := filepath.Join(VerifDir, "evidence", ck.ID+".json.tmp")
+	os.MkdirAll(filepath.Join(OutDir, "evidence"), 0o755)
+	tmp := filepath.Join(OutDir, "evidence", ck.ID+".json.tmp")
 	os.WriteFile(tmp, b, 0o644)
-	os.Rename(tmp, filepath.Join(VerifDir, "evidence", ck.ID+".json"))
+	os.Rename(tmp, filepath.Join(OutDir, "evidence", ck.ID+".json"))
 }
 
 func repoTreeID() string {
